@@ -180,7 +180,7 @@ func (ex *Exec) callFunc(fr *Frame, callee *ssa.Function, binds []Val, args []Va
 	if ex.chiStatic(fr, callee, args, st, k) {
 		return
 	}
-	if pureLib[name] {
+	if pureLib[name] || (vc.prog.contracts.Funcs[name] == nil && vc.prog.inPurePkg(callee)) {
 		ex.pureLibCall(name, callee, args, st, k)
 		return
 	}
@@ -488,6 +488,13 @@ func (ex *Exec) invoke(fr *Frame, site ssa.Instruction, common *ssa.CallCommon, 
 		ex.applyContract(fr, c, nil, sig, all, site, st, k, name)
 		return
 	}
+	if nt, ok := types.Unalias(it).(*types.Named); ok && nt.Obj().Pkg() != nil && vc.prog.contracts.PurePkgs[nt.Obj().Pkg().Path()] {
+		// interface of a package declared pure: the method is an uninterpreted function of the receiver and the arguments
+		sig := common.Method.Type().(*types.Signature)
+		all := append([]Val{recv}, args...)
+		ex.pureCall("iface:"+name, sig, append([]types.Type{it}, paramTypes(sig)...), all, st, k)
+		return
+	}
 	if isChiRouterType(it) {
 		all := append([]Val{recv}, args...)
 		if ex.chiCall(fr, common.Method.Name(), common.Method.Type().(*types.Signature), all, st, k) {
@@ -687,7 +694,7 @@ func (ex *Exec) applyContract(fr *Frame, c *FuncContract, callee *ssa.Function, 
 				vc.fatalf("ghost update of %s: %s", c.Name, strings.Join(uenv.errs, "; "))
 				return
 			}
-			st.ghost[u.Ghost] = v.T
+			st.ghost[u.Ghost] = ex.nameLarge(st, "ghost_"+u.Ghost, v.T)
 			if st.writes != nil {
 				st.writes.ghost[u.Ghost] = true
 			}
